@@ -72,7 +72,10 @@ class C04(Check):
             "controls). Each expression E is evaluated five times in one program (r0=E; r1=E; twice in a loop; as an "
             "if and a while condition) and the variables are deep-dumped through the BLOC_VERIF accessors: every "
             "evaluation must yield the Lean model's value, the if/while branch must follow K.cond, the operands and a "
-            "later `null`/`true`/`false` literal must be unchanged. distinct = (operator, operand classes, provenances).")
+            "later `null`/`true`/`false` literal must be unchanged. Plus (flocal): the null is an unassigned typed local of a function, the expression "
+            "evaluated 5x inside the function, the function called three times. Plus (litnull): the constants null, \"\", raw(), str(), bool(), int() as "
+            "receiver of every member method / argument of value-returning built-ins (and in-place members applied to those results), the same node "
+            "evaluated three times in a loop: equal results, `null` still null. distinct = (operator, operand classes, provenances) | expression.")
     assumptions = ["static (parse-time) acceptance is modelled by Model/Typing.lean; a parse-time rejection must be predicted by it"]
 
     def gen_cases(self):
@@ -143,6 +146,58 @@ class C04(Check):
                             if self.tier == "quick" and r1[0] not in ("var", "const") and r2[0] not in ("var", "const"):
                                 continue
                             add(opname, optext, c1, r1, c2, r2)
+        # provenance "unassigned local of a function": a typed null that is a local variable of a user function which is only
+        # assigned on a path not taken (`if false then lx = true; end if;`), the expression evaluated five times INSIDE the function,
+        # and the function called twice (the second call may run in a recycled call context). Each evaluation must give the model's value.
+        for opname, optext in LOGIC:
+            for c2 in BOOLS:
+                for r2 in renderings(c2, "y"):
+                    if r2[0] not in ("var", "const"):
+                        continue
+                    for side in ("l", "r"):
+                        n += 1
+                        prov2, e2, s2, v2, t2 = r2
+                        if prov2 == "var":
+                            e2x, pre = "py", "py"      # passed as a parameter (the callee cannot see the caller's variables)
+                        else:
+                            e2x, pre = e2, None
+                        E = "lx %s %s" % (optext, e2x) if side == "l" else "%s %s lx" % (e2x, optext)
+                        model = ("op %s N:b0 %s b0 %s" % (opname, v2, t2)) if side == "l" else ("op %s %s N:b0 %s b0" % (opname, v2, t2))
+                        enc = lambda ex: 'v = %s; if isnull(v) then q = q + "N"; elsif v then q = q + "T"; else q = q + "F"; end if;' % ex
+                        body = ('q = ""; if false then lx = true; end if;\n' + enc(E) + "\n" + enc(E) + "\n"
+                                "for i in 1 to 2 loop " + enc(E) + " end loop;\n"
+                                'if %s then q = q + "T"; else q = q + "-"; end if;\n' % E +
+                                'if isnull(lx) then q = q + "n"; else q = q + "!"; end if;\nreturn q;')
+                        src = ("function h(%s) return string is begin\n%s\nend;\n" % ("py" if pre else "", body) +
+                               "h1 = h(%s); h2 = h(%s); h3 = h(%s);\nzn = null; zt = true; zf = false;\n" % ((("y",) * 3) if pre else ("", "", "")))
+                        impl = "|".join(["new 0"] + s2 + ["prog 0 " + hx(src), "dump 0"])
+                        cases.append(Case("c%d" % n, model, impl, {"E": E, "prov": ["flocal-" + side, prov2], "flocal": True}))
+        # the literal `null` (and the other constants) as RECEIVER or ARGUMENT of members and value-returning built-ins, the same
+        # node evaluated three times in a loop: every evaluation must give the same value and `null` must still be null afterwards
+        # (property: "evaluating an expression never changes what the literal null means later"). No model is involved: the three
+        # results are compared with each other (witness of the repaired defect a40085e: null.concat("abc") gave abc, abcabc, abcabc).
+        args = ['"abc"', "65", "0", "2.5", "true", 'raw("ab")', "tab(1, 7)", 'tab(1, "s")', 'tup(1, "a")', "null", "x", "xs", "xt"]
+        lit = []
+        for cst in ("null", '""', "raw()", "str()", "bool()", "int()"):
+            for a in args:
+                lit.append("%s.concat(%s)" % (cst, a))
+                lit.append("%s.insert(0, %s)" % (cst, a))
+                lit.append("%s.put(0, %s)" % (cst, a))
+            lit += ["%s.delete(0)" % cst, "%s.at(0)" % cst, "%s.count()" % cst]
+            for f in ("upper", "lower", "trim", "str", "raw", "substr", "abs", "int", "num", "bool", "isnull", "typeof"):
+                inner = "%s(%s%s)" % (f, cst, ", 0" if f == "substr" else "")
+                lit += [inner, inner + '.concat("x")', inner + ".concat(65)"]
+        nlit = 0
+        for E in lit:
+            for form in ("v = %s;", "v = idf(%s);"):
+                n += 1
+                nlit += 1
+                src = (PRELUDE + "function idf(p) return undefined is begin return p; end;\n"
+                       "for i in 1 to 3 loop " + (form % E) + " if i == 1 then a1 = v; elsif i == 2 then a2 = v; else a3 = v; end if; end loop;\n"
+                       "zn = null; zt = true; zf = false;\n")
+                impl = "|".join(["new 0", "set 0 %s I:5" % hx("X"), "set 0 %s S:7171" % hx("XS"), "set 0 %s Ti1[I:1]" % hx("XT"), "prog 0 " + hx(src), "dump 0"])
+                cases.append(Case("c%d" % n, "", impl, {"E": form % E, "prov": ["litnull"], "litnull": True}))
+        self.stats["litnull_cases"] = nlit
         self.stats["exhaustive"] = True
         self.stats["cases"] = n
         return cases
@@ -150,15 +205,50 @@ class C04(Check):
     def judge(self, c, iraw, m, stderr):
         self.tally(c, iraw.split("|")[-2] if "|" in iraw else iraw, m)
         mout = m.get("model")
-        if mout is None:
+        if mout is None and not c.meta.get("litnull"):
             return self.record_violation("model gave no answer", c, iraw, m)
         if iraw.startswith("crash") or iraw.endswith("diverges"):
             return self.record_violation("crash/divergence evaluating a logical or relational expression", c, iraw, m, stderr)
+        if c.meta.get("litnull"):
+            parts = iraw.split("|")
+            prog, dump = parts[-2], parts[-1]
+            self.distinct.add(c.meta["E"])
+            d = parse_dump(dump)
+            if d is None:
+                return self.record_violation("unparsable dump", c, dump, m)
+            strip = lambda x: x.replace("/l", "").replace("/t", "")
+            if prog == "ok-":
+                got = [strip(d["syms"].get(r, ("", "", "?"))[2]) for r in ("A1", "A2", "A3")]
+                if not (got[0] == got[1] == got[2]):
+                    return self.record_violation("`%s` evaluated three times in a loop gives %s: the same expression in the same state must give "
+                                                 "equal results (a constant of the program text was changed)" % (c.meta["E"], " / ".join(got)), c, " / ".join(got), m)
+            for r, v in (("ZN", "N:?0"), ("ZT", "B:1"), ("ZF", "B:0")):
+                g = strip(d["syms"].get(r, ("", "", v))[2]) if prog == "ok-" else v
+                if g != v:
+                    return self.record_violation("literal constant changed meaning after `%s`: %s = %s" % (c.meta["E"], r, g), c, g, m)
+            return
         parts = iraw.split("|")
         prog, dump = parts[-2], parts[-1]
         self.distinct.add((c.model_line, tuple(c.meta["prov"])))
         if len(self.samples) < 10 and self.rng.random() < 0.005:
             self.samples.append({"E": c.meta["E"], "model": mout, "impl_prog": prog, "dump": dump[:200]})
+        if c.meta.get("flocal"):
+            if mout.startswith(("perr", "rerr")) or mout == "unmodelled":
+                if mout != "unmodelled" and not outcomes_agree(prog, mout):
+                    self.record_violation("implementation differs from the model (error outcome, operand = unassigned function local)", c, prog, m)
+                return
+            if prog != "ok-":
+                return self.record_violation("program failed but the model evaluates the expression (operand = unassigned function local)", c, prog, m)
+            d = parse_dump(dump)
+            ch = {"ok B:1": "T", "ok B:0": "F"}.get(mout, "N" if mout.startswith("ok N:") else "?")
+            want = ch * 4 + ("T" if ch == "T" else "-") + "n"
+            for var in ("H1", "H2", "H3"):
+                got = d["syms"].get(var, ("", "", "?"))[2].replace("/l", "").replace("/t", "")
+                if got != "S:" + want.encode().hex():
+                    return self.record_violation("`%s` with lx an unassigned (typed null) local, evaluated 4x + as a condition inside a function: call %s gives %s, "
+                                                 "the model gives %s (last letter: n = the local is still null)"
+                                                 % (c.meta["E"], var, bytes.fromhex(got[2:]).decode() if got.startswith("S:") else got, want), c, got, m)
+            return
         if c.meta.get("seq"):
             if prog != "ok-":
                 return self.record_violation("loop program failed", c, prog, m)
